@@ -11,7 +11,7 @@ from .. import common as C
 
 MODULE = "Props.C06"
 THEOREMS = ["C06_accepts_iff_rust_match", "C06_diagnostics_independent", "C06_empty_accepts_everything",
-            "C06_refuted", "C06_guard_join", "C06_packing", "C06_coercion_is_view", "C06_locals_distinct",
+            "C06_f3_repaired", "C06_guard_join", "C06_packing", "C06_coercion_is_view", "C06_locals_distinct",
             "C06_frontend", "C06_nonvacuous"]
 HARNESS = "matching"
 F3_ID = "F3"
